@@ -380,7 +380,8 @@ def c_req(r, o):
 
 
 def c_quirks(q):
-    return "{| q_call_runs_getter := %s; q_attr_private_unchecked := %s; q_helper_served := %s; q_hooks_run := %s |}" % tuple(cbool(x) for x in q)
+    return ("{| q_call_runs_getter := %s; q_attr_private_unchecked := %s; q_helper_served := %s; q_hook_getattribute := %s; "
+            "q_hook_getattr := %s |}") % tuple(cbool(x) for x in q)
 
 
 def c_history(case, obs, q):
@@ -573,7 +574,10 @@ def witness_cases():
     w4 = {"kind": "shape", "ser": "serpent", "shape": {"base_exposed": False, "sub_exposed": False, "members": [
         M("ping", "method", mark=True), M("__getattr__", "hook")]},
         "reqs": [{"kind": "call", "oneway": False, "names": ["any"]}]}
-    return w1, w2, w3, w4
+    w5 = {"kind": "shape", "ser": "serpent", "shape": {"base_exposed": False, "sub_exposed": False, "members": [
+        M("ping", "method", mark=True), M("__getattribute__", "hook")]},
+        "reqs": [{"kind": "call", "oneway": False, "names": ["ping"]}]}
+    return w1, w2, w3, w5, w4
 
 
 def targeted(reserved):
@@ -687,10 +691,13 @@ def run_impl(rig, case):
 
 def probe_quirks(rig):
     """which variant of the model the tree under test matches, learnt from the four recorded witnesses"""
-    return tuple(bool(run_impl(rig, w)["reqs"][0]["log"]) for w in witness_cases())
+    def seen(w, acc):
+        return any(e[1] == acc for e in run_impl(rig, w)["reqs"][0]["log"])
+    w1, w2, w3, w5, w4 = witness_cases()
+    return (seen(w1, "get"), seen(w2, "get"), seen(w3, "hcall"), seen(w5, "hook"), seen(w4, "hook"))
 
 
-QUIRK_NAMES = ("q_call_runs_getter", "q_attr_private_unchecked", "q_helper_served", "q_hooks_run")
+QUIRK_NAMES = ("q_call_runs_getter", "q_attr_private_unchecked", "q_helper_served", "q_hook_getattribute", "q_hook_getattr")
 
 
 def reserved_of(ctx):
